@@ -270,6 +270,8 @@ impl<'de> De<'de> {
                 Kind::U32 => v.visit_u32(bits as u32),
                 Kind::U64 => v.visit_u64(bits),
                 Kind::Bool => v.visit_bool(bits != 0),
+                Kind::I128 => v.visit_i128(bits as i64 as i128),
+                Kind::U128 => v.visit_u128(bits as u128),
             },
             NumDelivery::Widened => match kind {
                 Kind::F32 => v.visit_f64(f32::from_bits(bits as u32) as f64),
@@ -277,6 +279,8 @@ impl<'de> De<'de> {
                 Kind::I8 | Kind::I16 | Kind::I32 | Kind::I64 => v.visit_i64(bits as i64),
                 Kind::U8 | Kind::U16 | Kind::U32 | Kind::U64 => v.visit_u64(bits),
                 Kind::Bool => v.visit_bool(bits != 0),
+                Kind::I128 => v.visit_i64(bits as i64),
+                Kind::U128 => v.visit_u64(bits),
             },
         }
     }
@@ -436,11 +440,24 @@ impl<'de> de::Deserializer<'de> for De<'de> {
         self.any(None, v)
     }
 
+    fn deserialize_map<V: Visitor<'de>>(self, v: V) -> Result<V::Value, SimError> {
+        if self.env.cfg.check_names {
+            if let Node::Struct { name, .. } = self.node {
+                if name != "<map>" {
+                    self.env.step(RStep::Open, self.depth)?;
+                    return Err(SimError::Medium("the reader expects a map, the medium holds a struct"));
+                }
+            }
+        }
+        self.any(None, v)
+    }
+
     forward_any! {
+        deserialize_i128 deserialize_u128
         deserialize_bool deserialize_i8 deserialize_i16 deserialize_i32 deserialize_i64
         deserialize_u8 deserialize_u16 deserialize_u32 deserialize_u64 deserialize_f32
         deserialize_f64 deserialize_char deserialize_str deserialize_string deserialize_bytes
-        deserialize_byte_buf deserialize_unit deserialize_seq deserialize_map
+        deserialize_byte_buf deserialize_unit deserialize_seq
         deserialize_identifier deserialize_ignored_any
     }
 
@@ -469,7 +486,12 @@ impl<'de> de::Deserializer<'de> for De<'de> {
     ) -> Result<V::Value, SimError> {
         self.env.step(RStep::Misc, self.depth)?;
         match self.node {
-            Node::Newtype { inner, .. } => v.visit_newtype_struct(De { node: inner, ..self }),
+            Node::Newtype { inner, name } => {
+                if self.env.cfg.check_names && name != _name {
+                    return Err(SimError::Medium("the newtype on the medium carries another name than the reader expects"));
+                }
+                v.visit_newtype_struct(De { node: inner, ..self })
+            }
             _ => v.visit_newtype_struct(self),
         }
     }
@@ -498,6 +520,19 @@ impl<'de> de::Deserializer<'de> for De<'de> {
             Node::Newtype { inner, .. } => inner,
             n => n,
         };
+        if self.env.cfg.check_names {
+            if let Node::Struct { name: stored, .. } = node {
+                // RON-like strictness: a struct is not a map, and a struct has a name
+                if stored == "<map>" {
+                    self.env.step(RStep::Open, self.depth)?;
+                    return Err(SimError::Medium("the reader expects a struct, the medium holds a map (written through serialize_map)"));
+                }
+                if stored != _name {
+                    self.env.step(RStep::Open, self.depth)?;
+                    return Err(SimError::Medium("the record on the medium carries another struct name than the reader expects"));
+                }
+            }
+        }
         De { node, ..self }.any_with(Some(fields.len()), Some(fields), v)
     }
 
